@@ -190,6 +190,86 @@ def text(s):
     return s
 
 
+def midscan_hup(ck, tree, rng, n, first_id):
+    """HUP while a scan of todo/ is open: two messages are queued while the daemon is kept from moving, the daemon preprocesses the
+    first and is stopped when it hands that todo entry to qmail-clean, the control files are rewritten and HUP is sent, then it goes
+    on: the second message is 'subsequently preprocessed' and must follow the new files.  Gated run (lib/daemon.py), real
+    qmail-send / qmail-clean / qmail-queue."""
+    import daemon, sandbox, signal as _sig
+    cases, recs = [], []
+    for i in range(n):
+        c0, c1 = rand_cfg(rng), rand_cfg(rng)
+        addrs = gen_addrs(rng, [c0, c1], 8)
+        rng.shuffle(addrs)
+        addrs = addrs[:12]
+        m = [{"snd": "mid%d-a@sender.test" % i, "rc": addrs}, {"snd": "mid%d-b@sender.test" % i, "rc": list(reversed(addrs))}]
+        case = {"id": first_id + i, "phases": [{"k": "start", "cfg": c0, "msgs": [m[0]]}, {"k": "hup", "cfg": c1, "msgs": [m[1]]}]}
+        work = ck.scratch.sub("mid")
+        import shutil
+        shutil.rmtree(work, ignore_errors=True)
+        sandbox.clear_queue(tree.root)
+        ctl = daemon.Controller(tree, work)
+        try:
+            c10_util.write_controls(tree.root, c0)
+            ctl.start()
+            ctl.run()
+            d = ctl.send_proc()
+            ctl.held.add(d.pid)
+            for mm in m:
+                ctl.inject(b"Subject: mid\n\nbody\n", mm["snd"].encode("latin-1"), [r.encode("latin-1") for r in mm["rc"]])
+                ctl.run()
+            q = sandbox.list_queue(tree.root, with_data=True)
+            ids = {}
+            for (dd, name), v in q.items():
+                if dd == "todo":
+                    parts = v["data"].split(b"\0")
+                    snd = [x[1:] for x in parts if x.startswith(b"F")]
+                    if snd:
+                        ids[snd[0].decode("latin-1")] = int(name)
+            if len(ids) != 2:
+                raise Infra("mid-scan HUP: the two messages are not both in todo/ (%s)" % ids)
+            ctl.held.clear()
+            for pr in ctl.procs.values():
+                if pr.state == "parked":
+                    pr.dirty = True
+            ctl.run(until=lambda e: e.get("c") == "write" and bytes.fromhex(e.get("hex", "")).startswith(b"todo/"))
+            ctl.held.add(d.pid)
+            gone = [k for k, mid in ids.items() if not os.path.exists(os.path.join(tree.root, "queue", "info", str(mid % 3), str(mid)))]
+            c10_util.write_controls(tree.root, c1)
+            ctl.signal(_sig.SIGHUP)
+            ctl.held.clear()
+            ctl.run()
+            for _ in range(8):
+                if not ctl.delcmds:
+                    break
+                for cmd in list(ctl.delcmds):
+                    ctl.report(cmd["chan"], cmd["delnum"], b"Zdeferred by the test rig\n")
+            q = sandbox.list_queue(tree.root, with_data=True)
+            # which message was preprocessed before the HUP: the one whose info file existed when the daemon was stopped
+            first = [k for k in ids if k not in gone]
+            if len(first) != 1:
+                raise Infra("mid-scan HUP: the daemon was not stopped between the two messages (%s, %s)" % (ids, gone))
+            for k, mid in ids.items():
+                ph = 0 if k == first[0] else 1
+                mm = m[0] if k == m[0]["snd"] else m[1]
+                def chan(dn):
+                    v = q.get((dn, str(mid)))
+                    if not v:
+                        return []
+                    rr = v["data"].split(b"\0")
+                    return [x[1:].decode("latin-1") for x in rr if x[:1] in (b"T", b"D")]
+                # the case lists message a under phase 0 and message b under phase 1: when readdir gave them in the other order, swap
+                recs.append({"case": case["id"], "ph": ph, "mi": 0, "snd": mm["snd"], "rc": list(mm["rc"]), "lo": chan("local"), "re": chan("remote"),
+                             "dl": [], "ok": 1, "midscan": 1})
+            if first[0] != m[0]["snd"]:
+                case["phases"][0]["msgs"], case["phases"][1]["msgs"] = [m[1]], [m[0]]
+        finally:
+            ctl.stop()
+        cases.append(case)
+    sandbox.clear_queue(tree.root)
+    return cases, recs
+
+
 def main():
     ap = argparse.ArgumentParser()
     ap.add_argument("--tier", default=os.environ.get("VERIF_TIER", "quick"))
@@ -320,6 +400,12 @@ def main():
     recs.sort(key=lambda r: (r["case"], r["ph"], r["mi"]))
     nbin = len(recs)
     recs += srecs
+    if not a.replay:
+        mcases, mrecs = midscan_hup(ck, tree, rng, 24 if thorough else 8, 9000000)
+        for c in mcases:
+            bycase[c["id"]] = c
+        recs += mrecs
+        ck.cov["messages_preprocessed_after_a_hup_that_arrived_during_the_scan"] = sum(1 for r in mrecs if r["ph"] == 1)
 
     # ---- 3. verdict by TLC ----------------------------------------------------------------------
     # (several TLC processes with one worker each: TLC parses the record file once per worker)
